@@ -166,6 +166,9 @@ func checkVarint(c *C, v uint64, rest []byte) {
 		c.Compare("appendVarint", v, vh.Hex(enc), c.Ask("appendVarint %d", v))
 		c.Compare("consumeVarint", vh.Hex(in), fmt.Sprintf("%d %d", got, n), c.Ask("consumeVarint %s", vh.Hex(in)))
 		c.Compare("sizeVarint", v, fmt.Sprint(sz), c.Ask("sizeVarint %d", v))
+		// the readable specification (Spec.*), on which the message-level models are built
+		c.Compare("specEncVarint", v, vh.Hex(enc), c.Ask("specEncVarint %d", v))
+		c.Compare("specVarint", vh.Hex(in), fmt.Sprintf("%d %d", got, n), c.Ask("specVarint %s", vh.Hex(in)))
 	}
 	c.Hist(fmt.Sprintf("varint-size-%d", len(enc)))
 	c.Case(fmt.Sprint("varint", v), v != 0)
@@ -477,6 +480,12 @@ func checkParse(c *C, b []byte, kind string) {
 	if c.HasModel() && len(b) <= 400 {
 		c.Compare("consumeField", hx, fmt.Sprintf("%d %d %d", num, typ, n), c.Ask("consumeField %s", hx))
 		c.Compare("consumeTag", hx, fmt.Sprintf("%d %d %d", tnum, ttyp, tn), c.Ask("consumeTag %s", hx))
+		c.Compare("specTag", hx, fmt.Sprintf("%d %d %d", tnum, ttyp, tn), c.Ask("specTag %s", hx))
+		sv, sn := protowire.ConsumeVarint(b)
+		c.Compare("specVarint", hx, fmt.Sprintf("%d %d", sv, sn), c.Ask("specVarint %s", hx))
+		sb, sbn := protowire.ConsumeBytes(b)
+		c.Compare("specBytes", hx, fmt.Sprintf("%s %d", vh.Hex(sb), sbn), c.Ask("specBytes %s", hx))
+		c.Compare("consumeBytes", hx, fmt.Sprintf("%s %d", vh.Hex(sb), sbn), c.Ask("consumeBytes %s", hx))
 		if tn > 0 {
 			vn := protowire.ConsumeFieldValue(tnum, ttyp, b[tn:])
 			c.Compare("consumeFieldValue", hx, fmt.Sprint(vn), c.Ask("consumeFieldValue %d %d %s", tnum, ttyp, vh.Hex(b[tn:])))
